@@ -67,3 +67,47 @@ def rabin_fingerprint(data):
     # Although not mentioned in the Avro specification, the Java
     # implementation gives fingerprint bytes in little-endian order
     return result.to_bytes(length=8, byteorder="little", signed=False).hex()
+
+
+def inline_separately_parsed_types(schema, named_schemas):
+    """Returns the schema with the marker keys of parse_schema removed and
+    made self-contained: a reference to a named type that is not defined
+    inside the schema itself, because that type was parsed separately into
+    the shared `named_schemas`, is replaced by its definition where it is
+    first used (later uses stay references)."""
+    defined = set()
+
+    def walk(node):
+        if isinstance(node, list):
+            return [walk(branch) for branch in node]
+        if isinstance(node, dict):
+            schema_type = node.get("type")
+            if schema_type in ("record", "error", "enum", "fixed") and "name" in node:
+                if node["name"] in defined:
+                    return node["name"]
+                defined.add(node["name"])
+            out = {
+                key: value
+                for key, value in node.items()
+                if key not in ("__fastavro_parsed", "__named_schemas")
+            }
+            if schema_type in ("record", "error"):
+                out["fields"] = [
+                    dict(field, type=walk(field["type"]))
+                    for field in node.get("fields", [])
+                ]
+            elif schema_type == "array":
+                out["items"] = walk(node["items"])
+            elif schema_type == "map":
+                out["values"] = walk(node["values"])
+            return out
+        if (
+            isinstance(node, str)
+            and node not in PRIMITIVES
+            and node not in defined
+            and node in named_schemas
+        ):
+            return walk(named_schemas[node])
+        return node
+
+    return walk(schema)
